@@ -98,7 +98,8 @@ type Judge struct {
 func NewJudge(path string, n int) (*Judge, error) {
 	j := &Judge{path: path}
 	for i := 0; i < n; i++ {
-		cmd := exec.Command(path)
+		// the extracted list functions are not tail-recursive: give the judge a large stack
+		cmd := exec.Command("sh", "-c", "ulimit -s 4000000 2>/dev/null || ulimit -s unlimited 2>/dev/null; exec \"$0\"", path)
 		cmd.Stderr = os.Stderr
 		wc, err := cmd.StdinPipe()
 		if err != nil {
@@ -465,7 +466,7 @@ func Run(p *Prop, o Options) (*Result, error) {
 			}
 			seenKeys["s/"+key] = true
 			s, tape, verdict := specs[i], tapes[i], v
-			if p.Shrink != nil && budgetShrinks > 0 {
+			if p.Shrink != nil && budgetShrinks > 0 && os.Getenv("VERIF_NOSHRINK") == "" {
 				budgetShrinks--
 				s, tape, verdict = shrink(p, j, s, tape, verdict, clause)
 				if p.Finding != nil {
@@ -539,7 +540,7 @@ func Run(p *Prop, o Options) (*Result, error) {
 			}
 			if !found {
 				s, tape, verdict := specs[i], tapes[i], v
-				if p.Shrink != nil && budgetShrinks > 0 {
+				if p.Shrink != nil && budgetShrinks > 0 && os.Getenv("VERIF_NOSHRINK") == "" {
 					budgetShrinks--
 					s, tape, verdict = shrinkMismatch(p, j, s, tape, verdict)
 				}
